@@ -110,6 +110,10 @@ def make_cases(ctx):
                 yield "hs-%04x-%d%d-%s-%s" % (sid, ver[0], ver[1], direction,
                                               how), dict(
                     mode="hs", sid=sid, ver=ver, dir=direction, how=how)
+    for ver in ((3, 3), (3, 4), (3, 1)):
+        for api in ("read", "recv", "recv_into", "makefile"):
+            yield "api-%d-%s" % (ver[1], api), dict(mode="api", ver=ver,
+                                                    api=api)
     for where in ("first", "second", "budget", "budget_ccs"):
         for skey in (None, "rsa"):
             yield "early-%s-%s" % (where, skey), dict(mode="early",
@@ -125,11 +129,17 @@ def make_cases(ctx):
         for hrr_ in ((False, True) if tuple(ver) == (3, 4) else (False,)):
             for direction in ("c2s", "s2c"):
                 for mut in ("ins_plain_ccs", "ins_plain_alert",
-                            "ins_plain_app"):
+                            "ins_plain_app", "ins_first_plain_alert",
+                            "ins_first_plain_fatal", "ins_first_plain_ccs"):
                     yield "connd-%04x-%d%d-%s-%s-%d" % (
                         sid, ver[0], ver[1], direction, mut, hrr_), dict(
                         mode="conn", sid=sid, ver=ver, etm=etm, i=1,
                         mut=mut, dir=direction, hrr=hrr_)
+                    if not hrr_ and tuple(ver) >= (3, 1):
+                        yield "connd-%04x-%d%d-%s-%s-res" % (
+                            sid, ver[0], ver[1], direction, mut), dict(
+                            mode="conn", sid=sid, ver=ver, etm=etm, i=1,
+                            mut=mut, dir=direction, hrr=False, resume=True)
     # connection level
     n = ctx.pick(40, 600)
     for i in range(n):
@@ -506,6 +516,47 @@ def run_rl(ctx, cid, P):
     trial("splice_hdr", R[0][:5] + R[1][5:5 + len(R[0]) - 5] if
           len(R[1]) >= len(R[0]) else R[1][:5] + R[0][5:5 + len(R[1]) - 5],
           hon)
+    # the same record far away in the sequence: a receiver at number
+    # n + k*2^32 (2^48, 2^63) must refuse what was protected as number n
+    pt0 = mon.keystream("%s/far" % cid, 21)
+    rig.sl._writeState = snap(saved_w)
+    near = rig.protect(23, pt0)
+    for kname, k in (("2^32", 1 << 32), ("5*2^32", 5 << 32),
+                     ("2^48", 1 << 48), ("2^63", 1 << 63), ("2^8", 1 << 8)):
+        r2, w2 = snap(saved_r), snap(saved_w)
+        if r2.seqnum + k >= 1 << 64:
+            continue
+        r2.seqnum += k
+        w2.seqnum += k
+        rig.sl._writeState = w2
+        far = rig.protect(23, pt0)
+        if far == near and kind[0].split("/")[0] not in ("null",):
+            # (a sender and a receiver sharing the mistake agree with each
+            # other: what gives it away is that position n and position
+            # n + k produce the very same protected record)
+            ctx.ev()
+            ctx.violation({"clause": "record_independent_of_sequence_number",
+                           "kind": kind[0], "fam": kind[1],
+                           "distance": kname},
+                          dict(W, record=near[:200]),
+                          "the same plaintext protected as record n and as "
+                          "record n + %s gives identical bytes: either one "
+                          "is accepted in place of the other" % kname)
+            continue
+        for mclass, presented in (("far_identity", far),
+                                  ("replay_far:" + kname, near)):
+            res = rig.present(presented, r2)
+            v = judge(ctx, kind, mclass, presented, [(far, 23, pt0)], res,
+                      dict(W, mut=mclass, presented=presented[:300],
+                           distance=kname))
+            ctx.ev()
+            ctx.count("trials")
+            ctx.count("v:" + v.split(":")[0])
+            ctx.cell("cell", "%s|%s|%s" % (kind[0], mclass, v))
+            if mclass == "far_identity" and v != "accept":
+                ctx.inconc("far sequence control failed in %s (%s): %s" % (
+                    cid, kname, v))
+    rig.sl._writeState = snap(saved_w)
     # reflection: a record the receiver itself would send
     rsaved = snap(rig.rl._writeState)
     refl = other.protect(23, mon.keystream("refl", 20), rl=rig.rl)
@@ -869,6 +920,14 @@ def run_conn(ctx, cid, P):
         n = state.setdefault("n", 0)
         state["n"] = n + 1
         raw = bytearray(rec.raw)
+        if n == 0 and mut.startswith("ins_first_"):
+            # in front of the very first record of the application epoch
+            state["done"] = True
+            body = {"ins_first_plain_alert": (21, b"\x01\x00"),
+                    "ins_first_plain_fatal": (21, b"\x02\x28"),
+                    "ins_first_plain_ccs": (20, b"\x01")}[mut]
+            return bytes([body[0]]) + bytes(raw[1:3]) + \
+                len(body[1]).to_bytes(2, "big") + body[1] + bytes(raw)
         if n == 0:
             # first record passes (baseline delivery)
             state["first"] = bytes(raw)
@@ -915,8 +974,22 @@ def run_conn(ctx, cid, P):
     ckw = dict(useEncryptThenMAC=P["etm"])
     if hrr:
         ckw["keyShares"] = []
-    fl = suites.flavor_for(P["sid"], ver, cset_kw=ckw,
-                           sset_kw=dict(useEncryptThenMAC=P["etm"]))
+    skw = dict(useEncryptThenMAC=P["etm"])
+    if P.get("resume"):
+        from vt.flavours import TK, pump as _pump
+        skw["ticketKeys"] = TK
+    fl = suites.flavor_for(P["sid"], ver, cset_kw=ckw, sset_kw=skw)
+    if P.get("resume"):
+        # the connection under attack is a resumed one
+        p0 = Pair()
+        t0c, t0s = p0.handshake(fl)
+        if t0c.status != "done" or t0s.status != "done":
+            ctx.inconc("resumption source failed for %s" % cid)
+            return
+        _pump(p0, p0.c, p0.csock)
+        drive.run([drive.Task("cc", drive.aclose(p0.c), p0.csock),
+                   drive.Task("sc", drive.aclose(p0.s), p0.ssock)], p0.link)
+        fl.session = p0.c.session
     p = Pair(mitm=mitm)
     tc, ts = p.handshake(fl)
     if tc.status != "done" or ts.status != "done":
@@ -924,6 +997,11 @@ def run_conn(ctx, cid, P):
         return
     if hrr:
         ctx.count("conn_after_hello_retry")
+    if P.get("resume"):
+        if not (p.c.resumed and p.s.resumed):
+            ctx.count("conn_resumption_declined")
+        else:
+            ctx.count("conn_on_resumed_connection")
     snd, rcv = (p.c, p.s) if direction == "c2s" else (p.s, p.c)
     ssock, rsock = (p.csock, p.ssock) if direction == "c2s" else \
         (p.ssock, p.csock)
@@ -1052,9 +1130,107 @@ def run_conn(ctx, cid, P):
     ctx.count("conn_rejected")
 
 
+def run_api(ctx, cid, P):
+    """a forged record after some honest data, read through each of the
+    reading entry points of the socket emulation (read, recv, recv_into,
+    makefile): every one of them must report the integrity failure, none
+    may turn it into an end of stream"""
+    import socket
+    import threading
+    from tlslite import TLSConnection
+    from vt import creds
+    from vt.pair import ver_settings
+    ver, api = tuple(P["ver"]), P["api"]
+    a, b = socket.socketpair()
+    a.settimeout(30)
+    b.settimeout(30)
+    res = {}
+
+    def server():
+        try:
+            conn = TLSConnection(b)
+            chain, key_ = creds.server("rsa")
+            conn.handshakeServer(certChain=chain, privateKey=key_,
+                                 settings=ver_settings(ver))
+            conn.write(b"honest-data-")
+            # a record nobody protected with the connection's keys
+            junk = mon.keystream(cid, 48)
+            b.sendall(b"\x17\x03\x03" + len(junk).to_bytes(2, "big") + junk)
+            res["server"] = "ok"
+            try:
+                conn.read(max=10, min=1)      # the peer's alert
+            except Exception as e:   # noqa
+                res["server_saw"] = type(e).__name__
+        except Exception as e:   # noqa
+            res["server"] = repr(e)
+    t = threading.Thread(target=server)
+    t.daemon = True
+    t.start()
+    got = bytearray()
+    exc = None
+    c = TLSConnection(a)
+    try:
+        c.handshakeClientCert(settings=ver_settings(ver))
+        if api == "makefile":
+            f = c.makefile("rb")
+            while True:
+                r = f.read(12)
+                if not r:
+                    break
+                got += r
+        else:
+            for _ in range(6):
+                if api == "read":
+                    r = c.read(max=12, min=1)
+                elif api == "recv":
+                    r = c.recv(12)
+                else:
+                    buf = bytearray(12)
+                    n = c.recv_into(buf)
+                    r = bytes(buf[:n]) if n else b""
+                if not r:
+                    break
+                got += r
+    except Exception as e:   # noqa
+        exc = e
+    try:
+        a.close()
+    except Exception:   # noqa
+        pass
+    t.join(30)
+    try:
+        b.close()
+    except Exception:   # noqa
+        pass
+    ctx.ev()
+    ctx.count("api_trials")
+    key = {"layer": "api", "api": api,
+           "fam": "tls13" if ver == (3, 4) else "le12"}
+    W = {"case": cid, "got": bytes(got), "exc": repr(exc),
+         "server": res}
+    if res.get("server") != "ok":
+        ctx.inconc("api harness server failed: %r" % (res.get("server"),))
+        return
+    if bytes(got) not in (b"honest-data-", b""):
+        ctx.violation(dict(key, clause="tampered_data_delivered"), W,
+                      "reader got %r" % bytes(got))
+    elif not isinstance(exc, (E.TLSLocalAlert, E.TLSBadRecordMAC)):
+        ctx.violation(dict(key, clause="tamper_not_detected",
+                           status="end_of_stream" if exc is None
+                           else type(exc).__name__), W,
+                      "%s() after a forged record: %r (data so far %r)" % (
+                          api, exc, bytes(got)))
+    else:
+        ctx.count("api_rejected")
+    ctx.cell("cell", "api|%s|%s|%s" % (key["fam"], api,
+                                      type(exc).__name__ if exc else "eof"))
+
+
 def run(ctx):
     for cid, P in ctx.cases(make_cases(ctx)):
-        if P["mode"] == "rl":
+        if P["mode"] == "api":
+            run_api(ctx, cid, P)
+        elif P["mode"] == "rl":
             run_rl(ctx, cid, P)
         elif P["mode"] == "hs":
             run_hs_inject(ctx, cid, P)
@@ -1071,6 +1247,9 @@ def finalize(m, tier):
         out.append("no honest acceptance observed")
     if c.get("v:reject", 0) == 0:
         out.append("no rejection observed")
+    if c.get("api_rejected", 0) < 8:
+        out.append("fewer than 8 forged records reported through the "
+                   "socket emulation entry points")
     if c.get("conn_rejected", 0) == 0:
         out.append("connection-level oracle never reached a rejection")
     ks = m["cells"].get("ckind", set())
